@@ -332,7 +332,9 @@ def r3_validate_dominates_write(ctx: Context) -> None:
         rets = [n for n in walk_no_nested(f.node) if isinstance(n, ast.Return) and n.value is not None]
         for r in rets:
             rn = names_in(r.value)
-            okk = bool(rn & vres) or any(_is_helper_call(repo, f, c) for c in ast.walk(r.value) if isinstance(c, ast.Call))
+            # the validated record itself, or a persist helper that is GIVEN the validated record (not a fresh read of the
+            # store, which may already show another actor's later change)
+            okk = bool(rn & vres) or any(_is_helper_call(repo, f, c) and any(names_in(a_) & vres for a_ in list(c.args) + [k.value for k in c.keywords]) for c in ast.walk(r.value) if isinstance(c, ast.Call))
             ctx.add("R3", f"{qual}::returns-validated-record", okk, f.loc(r), "" if okk else f"returns {ast.unparse(r.value)[:60]}, not the record produced by status_record_transition")
 
 
